@@ -679,6 +679,64 @@ def _approx_matrix(rec, sysm):
     return (Aa + Aa.conj().T) / 2
 
 
+def _judge_inverse(rec, sysm, op, proxy, ic, ak, mode, xvec, yv, classes, kappa, first):
+    """oracle for one iterative solve of InversionEnabler in `mode` with right-hand side xvec and result yv"""
+    n = sysm.n
+    nxin = float(np.linalg.norm(xvec))
+    tag = "" if first else "reused_controller:"
+    # the system CG has to solve: (matrix of op in the inverse mode) y = x
+    invmode = {1: 4, 2: 8, 4: 1, 8: 2}[mode]
+    used = set(m for r in proxy.recs for m in r["modes"]) | set(m for (m, _) in op.log)
+    require(used <= {invmode}, tag + "wrong_operator_mode", f"mode {mode}: op applied in modes {sorted(used)}")
+    require(len(proxy.recs) >= 1, tag + "no_iteration", f"mode {mode}")
+    Msys = op.mat(invmode)
+    evs = np.linalg.eigvalsh(Msys)
+    rows = analyse(sysm, Msys, xvec, proxy.recs, 20)      # ConjugateGradient's default nreset
+    if proxy.capped:
+        raise Violation(tag + "no_termination", f"mode {mode}: {CAP_ITER} iterations")
+    reason = judge_statuses(ic, rows)
+    last = rows[-1]
+    true_ref = np.linalg.solve(Msys, xvec)
+    solve_err = 64 * sysm.cm * float(evs[-1] / evs[0]) * float(np.linalg.norm(true_ref))
+    if reason is None:
+        # CG stopped itself on an exactly vanishing residual; that energy was never shown to the controller
+        g = Msys @ yv - xvec
+        ng = float(np.linalg.norm(g))
+        sl = 4 * (sysm.cm * float(np.linalg.norm(Msys)) * float(np.linalg.norm(yv)) + U * nxin) + 4 * last["S"] \
+            + 64 * sysm.cm * float(np.linalg.norm(Msys)) * float(np.linalg.norm(yv - last["x"]))
+        require(ng <= sl, tag + "inverse_not_a_solution",
+                f"mode {mode}: CG stopped without the controller, |res| {ng:.3e} > {sl:.3e}")
+        classes.append("stop_cg_zero_residual")
+        return last["it"]
+    require(np.array_equal(yv, last["x"]), tag + "result_not_last_position", f"mode {mode}")
+    classes.append(f"iter_{mode}_{reason}")
+    if reason != "criterion":
+        return last["it"]
+    k = ic["kind"]
+    if k == "gn":
+        tols = []
+        if ic.get("abs") is not None:
+            tols.append(2.0 ** -ic["abs"])
+        if ic.get("rel") is not None:
+            tols.append(2.0 ** -ic["rel"] * (rows[0]["gn"] + rows[0]["S"]))
+        tol_eff = max(tols)
+    else:
+        tol_eff = np.sqrt(n) * 2.0 ** -ic["tol"] * (abs(last["E"]) + last["SV"])
+    bound = (tol_eff + last["S"]) / float(evs[0]) + solve_err
+    err = float(np.linalg.norm(yv - true_ref))
+    if err > bound:
+        raise Violation(tag + "inverse_inaccurate",
+                        f"mode {mode}: |y - solve| = {err:.3e} > (tol {tol_eff:.3e} + slack)/lambda_min "
+                        f"= {bound:.3e}")
+    easy = min(v for v in (ic.get("abs"), ic.get("rel")) if v is not None) if k == "gn" else 99
+    if ak is not None and ak["kind"] == "exact" and easy <= 26 and kappa <= 2.0 ** 12:
+        # preconditioner = inverse of the system matrix: one CG step is exact (error ~ u*cond*|x|)
+        require(last["it"] <= ic["level"] + 1, "approximation_not_used_as_preconditioner",
+                f"mode {mode}: exact approximation but {last['it']} iterations (level {ic['level']})")
+        classes.append("exact_approx_one_step")
+    return last["it"]
+
+
 def check_inversion(rec):
     sysm = System(rec)
     n = sysm.n
@@ -719,57 +777,20 @@ def check_inversion(rec):
             classes.append(f"native_{mode}")
             continue
         nonnative += 1
-        # the system CG has to solve: (matrix of op in the inverse mode) y = x
-        invmode = {1: 4, 2: 8, 4: 1, 8: 2}[mode]
-        used = set(m for r in proxy.recs for m in r["modes"]) | set(m for (m, _) in op.log)
-        require(used <= {invmode}, "wrong_operator_mode", f"mode {mode}: op applied in modes {sorted(used)}")
-        require(len(proxy.recs) >= 1, "no_iteration", f"mode {mode}")
-        Msys = op.mat(invmode)
-        evs = np.linalg.eigvalsh(Msys)
-        rows = analyse(sysm, Msys, xin, proxy.recs, 20)      # ConjugateGradient's default nreset
-        if proxy.capped:
-            raise Violation("no_termination", f"mode {mode}: {CAP_ITER} iterations")
-        reason = judge_statuses(ic, rows)
-        last = rows[-1]
-        iters_max = max(iters_max, last["it"])
-        true_ref = np.linalg.solve(Msys, xin)
-        solve_err = 64 * sysm.cm * float(evs[-1] / evs[0]) * float(np.linalg.norm(true_ref))
-        if reason is None:
-            # CG stopped itself on an exactly vanishing residual; that energy was never shown to the controller
-            g = Msys @ yv - xin
-            ng = float(np.linalg.norm(g))
-            sl = 4 * (sysm.cm * float(np.linalg.norm(Msys)) * float(np.linalg.norm(yv)) + U * nxin) + 4 * last["S"] \
-                + 64 * sysm.cm * float(np.linalg.norm(Msys)) * float(np.linalg.norm(yv - last["x"]))
-            require(ng <= sl, "inverse_not_a_solution",
-                    f"mode {mode}: CG stopped without the controller, |res| {ng:.3e} > {sl:.3e}")
-            classes.append("stop_cg_zero_residual")
-            continue
-        require(np.array_equal(yv, last["x"]), "result_not_last_position", f"mode {mode}")
-        classes.append(f"iter_{mode}_{reason}")
-        if reason != "criterion":
-            continue
-        k = ic["kind"]
-        if k == "gn":
-            tols = []
-            if ic.get("abs") is not None:
-                tols.append(2.0 ** -ic["abs"])
-            if ic.get("rel") is not None:
-                tols.append(2.0 ** -ic["rel"] * (rows[0]["gn"] + rows[0]["S"]))
-            tol_eff = max(tols)
-        else:
-            tol_eff = np.sqrt(n) * 2.0 ** -ic["tol"] * (abs(last["E"]) + last["SV"])
-        bound = (tol_eff + last["S"]) / float(evs[0]) + solve_err
-        err = float(np.linalg.norm(yv - true_ref))
-        if err > bound:
-            raise Violation("inverse_inaccurate",
-                            f"mode {mode}: |y - solve| = {err:.3e} > (tol {tol_eff:.3e} + slack)/lambda_min "
-                            f"= {bound:.3e}")
-        easy = min(v for v in (ic.get("abs"), ic.get("rel")) if v is not None) if k == "gn" else 99
-        if ak is not None and ak["kind"] == "exact" and easy <= 26 and kappa <= 2.0 ** 12:
-            # preconditioner = inverse of the system matrix: one CG step is exact (error ~ u*cond*|x|)
-            require(last["it"] <= ic["level"] + 1, "approximation_not_used_as_preconditioner",
-                    f"mode {mode}: exact approximation but {last['it']} iterations (level {ic['level']})")
-            classes.append("exact_approx_one_step")
+        first = True
+        for xvec in [xin] + [xin * 2.0 ** e for e in rec.get("reuse", [])]:
+            # the SAME enabler / controller object solves several right-hand sides one after the other (that is how
+            # InversionEnabler is used): every solve must meet the criterion relative to ITS OWN right-hand side
+            if not first:
+                del proxy.recs[:]
+                del op.log[:]
+                y = inv.apply(sysm.field(xvec), mode)
+                yv = np.array(y.asnumpy()).reshape(-1)
+                require(yv.shape == (n,) and bool(np.all(np.isfinite(yv))), "nonfinite_result", f"mode {mode} (reused)")
+                classes.append("controller_reused")
+            it_ = _judge_inverse(rec, sysm, op, proxy, ic, ak, mode, xvec, yv, classes, kappa, first)
+            iters_max = max(iters_max, it_)
+            first = False
     nontrivial = nonnative >= 1 and n >= 3 and (iters_max >= 3 or ak is not None)
     return dict(nontrivial=bool(nontrivial), classes=classes)
 
@@ -973,6 +994,8 @@ def inversion_recipes(draw, tier):
         s["ic"]["limit"] = 4 * s["n"] + 40
     ak = draw(st.sampled_from(["near", None, "exact", None, "near"]))
     s["approx"] = None if ak is None else {"kind": ak, "seed": draw(SEED)}
+    # further right-hand sides (scaled by 2^e) solved by the same enabler / controller object
+    s["reuse"] = draw(st.lists(st.sampled_from([-30, -20, -10, -3, 3, 10, 20]), min_size=0, max_size=2))
     return s
 
 
